@@ -1,7 +1,7 @@
 //! map.dec / map.enc / map.rt / map.lookup: the mappings wire format and token lookup through the
 //! public API (SourceMap::from_slice, SourceMap::new, to_writer, lookup_token).
 use crate::util::*;
-use sourcemap::{RawToken, SourceMap};
+use sourcemap::{DecodedMap, RawToken, SourceMap};
 use std::sync::Arc;
 
 pub fn parse_toks(s: &str) -> Vec<RawToken> {
@@ -102,10 +102,15 @@ pub fn run(t: &[&str]) -> String {
         "map.lookup" => {
             let toks = parse_toks(t[1]);
             let sm = SourceMap::new(None, toks, vec![], vec![], None);
+            let dm = DecodedMap::Regular(sm.clone());
             let mut out = vec![];
             for q in split_list(t[2]) {
                 let (l, c) = q.split_once(':').unwrap_or((q, "0"));
                 let (l, c): (u32, u32) = (l.parse().unwrap_or(0), c.parse().unwrap_or(0));
+                // `DecodedMap::lookup_token` is the same lookup
+                if dm.lookup_token(l, c).map(|t| (t.get_raw_token(), t.get_src_col())) != sm.lookup_token(l, c).map(|t| (t.get_raw_token(), t.get_src_col())) {
+                    return "err dispatch-differs".into();
+                }
                 match sm.lookup_token(l, c) {
                     None => out.push("-".to_string()),
                     Some(tok) => {
